@@ -84,6 +84,13 @@ func Materialise(t *Tree, root string) error {
 		if n.LinkTo != "" {
 			continue
 		}
+		if n.MtimeFar != 0 {
+			ts := unix.Timespec{Sec: n.MtimeFar, Nsec: n.Mtime % 1e9}
+			if err := unix.UtimesNanoAt(unix.AT_FDCWD, filepath.Join(root, filepath.FromSlash(n.Path)), []unix.Timespec{ts, ts}, unix.AT_SYMLINK_NOFOLLOW); err != nil {
+				return fmt.Errorf("utimes %s: %w", n.Path, err)
+			}
+			continue
+		}
 		if err := SetMtime(filepath.Join(root, filepath.FromSlash(n.Path)), n.Mtime); err != nil {
 			return fmt.Errorf("utimes %s: %w", n.Path, err)
 		}
@@ -98,21 +105,24 @@ func SetMtime(p string, ns int64) error {
 
 // Entry is what the independent observer records per path.
 type Entry struct {
-	Kind   Kind
-	Perm   uint32 // 12 bits
-	Uid    uint32
-	Gid    uint32
-	Size   int64
-	Mtime  int64
-	Ctime  int64
-	Target string
-	Major  uint32
-	Minor  uint32
-	Dev    uint64
-	Ino    uint64
-	Nlink  uint64
-	Xattrs map[string]string
-	Sha    string // regular files
+	Kind  Kind
+	Perm  uint32 // 12 bits
+	Uid   uint32
+	Gid   uint32
+	Size  int64
+	Mtime int64
+	// MtimeSec: the whole-second part as the kernel reports it (Mtime wraps for
+	// instants outside 1677..2262)
+	MtimeSec int64
+	Ctime    int64
+	Target   string
+	Major    uint32
+	Minor    uint32
+	Dev      uint64
+	Ino      uint64
+	Nlink    uint64
+	Xattrs   map[string]string
+	Sha      string // regular files
 }
 
 type Snap map[string]*Entry
@@ -143,7 +153,7 @@ func LstatEntry(p string, withContent bool) (*Entry, error) {
 	}
 	e := &Entry{
 		Kind: kindOf(st.Mode), Perm: st.Mode & 0o7777, Uid: st.Uid, Gid: st.Gid, Size: st.Size,
-		Mtime: st.Mtim.Nano(), Ctime: st.Ctim.Nano(), Dev: st.Dev, Ino: st.Ino, Nlink: uint64(st.Nlink),
+		Mtime: st.Mtim.Nano(), MtimeSec: int64(st.Mtim.Sec), Ctime: st.Ctim.Nano(), Dev: st.Dev, Ino: st.Ino, Nlink: uint64(st.Nlink),
 	}
 	switch e.Kind {
 	case KSymlink:
@@ -304,7 +314,11 @@ func ExpectedSnap(t *Tree) Snap {
 		if n.LinkTo != "" {
 			src = idx[n.LinkTo]
 		}
-		e := &Entry{Kind: n.Kind, Perm: src.Perm & 0o7777, Uid: src.Uid, Gid: src.Gid, Mtime: src.Mtime}
+		e := &Entry{Kind: n.Kind, Perm: src.Perm & 0o7777, Uid: src.Uid, Gid: src.Gid, Mtime: src.Mtime, MtimeSec: floorSec(src.Mtime)}
+		if src.MtimeFar != 0 {
+			e.MtimeSec = src.MtimeFar
+			e.Mtime = src.MtimeFar*1e9 + src.Mtime%1e9 // wraps exactly like the observer's value
+		}
 		switch n.Kind {
 		case KFile:
 			e.Size = int64(src.Size)
@@ -419,8 +433,8 @@ func DiffSnap(got, want Snap, o CmpOpt) *Errs {
 			if o.SecondMtime {
 				gm, wm = gm/1e9, wm/1e9
 			}
-			if gm != wm {
-				errs.Addf("%q: mtime %d want %d", p, g.Mtime, w.Mtime)
+			if gm != wm || (!o.SecondMtime && g.MtimeSec != w.MtimeSec) {
+				errs.Addf("%q: mtime %d (second %d) want %d (second %d)", p, g.Mtime, g.MtimeSec, w.Mtime, w.MtimeSec)
 			}
 		}
 		if cmpX && !sameX(g.Xattrs, w.Xattrs) {
@@ -459,7 +473,7 @@ func DiffGroups(got Snap, want map[string]string, errs *Errs) {
 // SameEntry reports whether two observations of one path are identical in
 // everything including inode and ctime ("untouched").
 func SameEntry(a, b *Entry, withCtime bool) bool {
-	if a.Kind != b.Kind || a.Perm != b.Perm || a.Uid != b.Uid || a.Gid != b.Gid || a.Size != b.Size || a.Mtime != b.Mtime ||
+	if a.Kind != b.Kind || a.Perm != b.Perm || a.Uid != b.Uid || a.Gid != b.Gid || a.Size != b.Size || a.Mtime != b.Mtime || a.MtimeSec != b.MtimeSec ||
 		a.Target != b.Target || a.Major != b.Major || a.Minor != b.Minor || a.Ino != b.Ino || a.Dev != b.Dev || a.Sha != b.Sha || !sameX(a.Xattrs, b.Xattrs) {
 		return false
 	}
@@ -470,3 +484,32 @@ func SameEntry(a, b *Entry, withCtime bool) bool {
 }
 
 var _ = syscall.EINVAL
+
+// OtherFSDir creates a scratch directory on a file system other than the one
+// holding `near` (different st_dev), or returns "" if none of the candidates
+// qualifies. The caller removes it.
+func OtherFSDir(near string) string {
+	var st, ct unix.Stat_t
+	if unix.Stat(near, &st) != nil {
+		return ""
+	}
+	for _, cand := range []string{"/dev/shm", "/var/tmp"} {
+		if unix.Stat(cand, &ct) != nil || ct.Dev == st.Dev {
+			continue
+		}
+		d, err := os.MkdirTemp(cand, "verif-otherfs-")
+		if err != nil {
+			continue
+		}
+		return d
+	}
+	return ""
+}
+
+func floorSec(ns int64) int64 {
+	s := ns / 1e9
+	if ns%1e9 < 0 {
+		s--
+	}
+	return s
+}
